@@ -32,6 +32,7 @@ struct verif_in_t {
 	/* wait units */
 	int	w_np;
 	short	w_revents[CAP];
+	short	w_stale[CAP];		/* what the revents fields still hold from the previous iteration */
 	int	w_ret, w_err;		/* poll()/ppoll() outcome */
 	int	w_ret2, w_err2;		/* poll() outcome after the ppoll -> poll fallback */
 	_Bool	w_abs_present;
@@ -237,6 +238,9 @@ static void v_build_wait(void)
 	for (i = 0; i < CAP; i++) {
 		v_fds[i] = &v_pf[i];
 		v_pf[i].u.index = i;
+		/* a failing poll()/ppoll() need not touch the array: the verdicts of the previous
+		 * iteration are still in it */
+		v_pfds[i].revents = verif_in.w_stale[i];
 	}
 	v_state.time_valid = 1;
 	v_state.time.tv_sec = 5; v_state.time.tv_nsec = 0;
@@ -253,7 +257,7 @@ static void check_wait(int r, int final_ret, int final_err)
 	__CPROVER_assert(g_mr_bad == 0, "[C03] only registered descriptors are made ready, one band at a time, on the caller's batch");
 	for (i = 0; i < NP; i++) {
 		int exp = (final_ret >= 0 && i < verif_in.w_np) ? BANDS_OF_POLL(verif_in.w_revents[i]) : 0;
-		__CPROVER_assert(g_mr[i] == exp, "[C03,C02] ready bands are exactly the bands of the reported revents (IN|ERR|HUP->in, OUT|ERR|HUP->out, ERR|HUP->err); nothing on EINTR");
+		__CPROVER_assert(g_mr[i] == exp, "[C03,C02] ready bands are exactly the bands of the revents reported by THIS wait (IN|ERR|HUP->in, OUT|ERR|HUP->out, ERR|HUP->err); nothing on EINTR, whatever the array still holds from the previous iteration");
 	}
 }
 
